@@ -34,7 +34,10 @@ def gen_quarantine_script(rng):
     unreadable (cut inside the header or the first record), eager and lazy init, with and without new data in between:
     the counter must equal the number of blob files in the corrupted directory at every start."""
     K = 4
-    L = ['cfg K=4 dup=1 group=2 bloom=none init=%s runtime=%s nomodel=1' % (rng.choice(['eager', 'lazy']), rng.choice(['mt', 'ct'])), 'open']
+    # with its index file removed first, a damaged blob is inside the crash model (Storage/Model.v OCut): the model
+    # predicts every counter after the restart; a blob damaged below what its index file describes is not (wildcards)
+    modelled = rng.random() < 0.7
+    L = ['cfg K=4 dup=1 group=2 bloom=none init=%s runtime=%s' % (rng.choice(['eager', 'lazy']), rng.choice(['mt', 'ct'])), 'open']
     seed = 0
     nb = rng.choice([1, 1, 2, 3])
     for b in range(nb):
@@ -48,6 +51,8 @@ def gen_quarantine_script(rng):
     for rnd in range(rng.choice([1, 2, 2, 3])):
         victims = ids if rng.random() < 0.5 else rng.sample(ids, rng.randrange(0, len(ids) + 1)) if ids else []
         for v in victims:
+            if modelled:
+                L.append('rmindex %d' % v)
             L.append('trunc blob %d %s' % (v, rng.choice(['0', '10', '19', '25', '-3'])))
         L.append('cfgnext init=%s' % rng.choice(['eager', 'lazy', 'lazy']))
         L += ['open', 'counts', 'ls']
@@ -89,7 +94,7 @@ def tagger(lines, io, i, want, got):
 
 def oracle(lines, io, spec=None):
     fails = C.spec_oracle(lines, io, spec, ('counts',), tagger)
-    if 'nomodel=1' in lines[0]:
+    if any(l.startswith('trunc blob') for l in lines):
         seen_ids = set()
         for i, l in enumerate(lines):
             if l == 'counts' and i + 1 < len(io) and lines[i + 1] == 'ls' and io[i].startswith('counts ') and io[i + 1].startswith('ls'):
